@@ -31,21 +31,27 @@ REQUIRED_BRANCHES = ['conv_inside', 'conv_knot', 'conv_above', 'conv_below_error
                      'var_at_filter', 'var_between', 'var_outside', 'var_above', 'var_below_error',
                      'var_single', 'var_on_min',
                      'hist_conv_after_error', 'hist_conv_after_flux', 'hist_conv_after_both', 'hist_conv_after_apertures',
-                     'hist_conv_repeat_interp', 'hist_sed_after_flux', 'hist_sed_var_after_flux']
+                     'hist_conv_repeat_interp', 'hist_sed_after_flux', 'hist_sed_var_after_flux',
+                     'conv_knot_other_unit', 'sed_knot_other_unit', 'var_knot_other_unit', 'conv_empty_request',
+                     'sed_empty_request', 'var_single_filter']
 ASSUMPTIONS = ['IEEE rounding is not modelled: values are compared with a rounding budget of 1e-9 relative + 1e-12 x the '
                'largest tabulated magnitude of the row (linear interpolation between very different values cancels)',
-               'requests given in another unit than the table are sent to the model after astropy\'s conversion to the '
-               'table\'s unit (the number interp1d receives); such requests are never placed on the first / last knot',
+               'unit conversion is not modelled: requests given in another unit than the table are sent to the model after '
+               'astropy\'s conversion to the table\'s unit; a request that IS the first / last knot expressed in another unit '
+               '(it comes back within 1e-13 relative of the knot) is sent as that knot, i.e. the tabulated value is expected, '
+               'never a refusal',
                'tables are increasing in aperture (the quantifier), so min()/max() are the first / last knot']
 N = {'quick': 400, 'thorough': 6000}
 TOL = 1e-9
-UNITS = {'au': u.au, 'pc': u.pc}
+UNITS = {'au': u.au, 'pc': u.pc, 'cm': u.cm, 'm': u.m, 'km': u.km}
+UNIT_NAMES = ['au', 'pc', 'cm', 'm', 'km']
+AP_RANGE = {'au': (10., 1e4), 'pc': (1e-4, 1e-1), 'cm': (1e14, 1e17), 'm': (1e12, 1e15), 'km': (1e9, 1e12)}
 
 
 # ----------------------------------------------------------------------------- generation
 
 def gen_aps(rng, n_ap, unit):
-    lo, hi = (10., 1e4) if unit == 'au' else (1e-4, 1e-1)
+    lo, hi = AP_RANGE[unit]
     aps = [nice(rng, lo, hi, 3)]
     while len(aps) < n_ap:
         nxt = float('%.4g' % (aps[-1] * rng.uniform(1.15, 3.)))
@@ -95,8 +101,9 @@ def pick_kinds(rng, n, allow_below):
 
 def gen_conv(rng, directed=None):
     n_ap = rng.randint(1, 8)
-    tu = rng.choice(['au', 'au', 'pc'])
-    ru = tu if rng.random() < 0.6 else ('pc' if tu == 'au' else 'au')
+    tu = rng.choice(['au', 'au', 'au', 'pc', 'cm', 'm', 'km'])
+    other = lambda t: rng.choice([x for x in UNIT_NAMES if x != t])     # noqa: E731
+    ru = tu if rng.random() < 0.6 else other(tu)
     nreq = rng.randint(1, 6)
     kinds = None
     no_aps = False
@@ -113,16 +120,21 @@ def gen_conv(rng, directed=None):
     elif directed == 'conv_none':
         n_ap = 1; no_aps = True; kinds = ['above', 'below', 'first']
     elif directed == 'conv_other_unit':
-        n_ap = max(n_ap, 3); ru = 'pc' if tu == 'au' else 'au'; kinds = ['inside', 'knot', 'inside']
+        n_ap = max(n_ap, 3); ru = other(tu); kinds = ['inside', 'knot', 'inside']
     elif directed == 'conv_above_other_unit':
-        n_ap = max(n_ap, 2); ru = 'pc' if tu == 'au' else 'au'; kinds = ['inside', 'above']
+        n_ap = max(n_ap, 2); ru = other(tu); kinds = ['inside', 'above']
+    elif directed == 'conv_knot_other_unit':
+        # requests ON the first / last knot, expressed in another length unit
+        n_ap = max(n_ap, 2); ru = other(tu); kinds = ['first', 'last', 'first', 'inside', 'last']
+    elif directed == 'conv_empty':
+        n_ap = max(n_ap, 2); kinds = []
     nm = rng.randint(1, 6)
     aps = gen_aps(rng, n_ap, tu)
     if kinds is None:
         kinds = pick_kinds(rng, nreq, allow_below=(n_ap >= 2))
     if n_ap == 1 and not no_aps and directed is None:
         no_aps = rng.random() < 0.5
-    req = gen_req(rng, aps, kinds, interior_knots_only=(ru != tu))
+    req = gen_req(rng, aps, kinds)
     names = ['mod_%d' % rng.randrange(10000) for _ in range(nm)]
     while len(set(names)) < nm:
         names = ['mod_%d' % rng.randrange(10000) for _ in range(nm)]
@@ -138,8 +150,8 @@ def gen_conv(rng, directed=None):
 
 def gen_sed(rng, directed=None):
     n_ap = rng.randint(1, 8)
-    tu = rng.choice(['au', 'au', 'pc'])
-    ru = rng.choice(['bare', 'bare', 'au', 'pc'])
+    tu = rng.choice(['au', 'au', 'au', 'pc', 'cm', 'm', 'km'])
+    ru = rng.choice(['bare', 'bare', 'au', 'pc', 'cm', 'm', 'km'])
     nreq = rng.randint(1, 6)
     kinds = None
     no_aps = False
@@ -159,15 +171,18 @@ def gen_sed(rng, directed=None):
         n_ap = max(n_ap, 2); ru = 'bare'
     elif directed == 'sed_quantity':
         n_ap = max(n_ap, 2); ru = 'pc'
+    elif directed == 'sed_knot_other_unit':
+        n_ap = max(n_ap, 2); kinds = ['first', 'last', 'first', 'inside', 'last']
+        ru = rng.choice([x for x in UNIT_NAMES if x != tu])
+    elif directed == 'sed_empty':
+        n_ap = max(n_ap, 2); kinds = []
     nw = rng.randint(1, 6)
     aps = gen_aps(rng, n_ap, tu)
     if kinds is None:
         kinds = pick_kinds(rng, nreq, allow_below=(n_ap >= 2))
     if n_ap == 1 and directed is None:
         no_aps = rng.random() < 0.5
-    # knots on the first / last aperture only when no unit conversion separates request and table
-    exact = (tu == 'au' and ru in ('bare', 'au'))
-    req = gen_req(rng, aps, kinds, interior_knots_only=not exact)
+    req = gen_req(rng, aps, kinds)
     wavs = sorted({nice(rng, 0.1, 1000., 3) for _ in range(nw)})
     if rng.random() < 0.5:
         wavs = wavs[::-1]
@@ -175,10 +190,12 @@ def gen_sed(rng, directed=None):
     return dict(kind='sed', aps=aps, no_aps=no_aps, tab_unit=tu, req_unit=ru, req=req, wavs=wavs, flux=flux)
 
 
-def gen_var(rng, directed=None):
+def gen_var(rng, directed=None, tu=None):
     n_ap = rng.randint(1, 8)
     nf = rng.randint(1, 5)
     kinds = None
+    if tu is None:
+        tu = rng.choice(['au', 'au', 'au', 'pc', 'cm', 'm', 'km'])
     if directed == 'var_at_filter':
         n_ap = max(n_ap, 2); nf = max(nf, 2)
     elif directed == 'var_above':
@@ -191,7 +208,16 @@ def gen_var(rng, directed=None):
         n_ap = max(n_ap, 2); nf = max(nf, 2); kinds = ['first'] * nf
         if rng.random() < 0.5:
             kinds[-1] = 'inside'
-    aps = gen_aps(rng, n_ap, 'au')
+    elif directed == 'var_knot_other_unit':
+        # SED apertures stored in another unit; filter apertures (bare AU) ON its first / last aperture
+        n_ap = max(n_ap, 2); nf = max(nf, 2); kinds = [rng.choice(['first', 'last']) for _ in range(nf)]
+        kinds[0] = 'first'; kinds[-1] = 'last'
+        tu = rng.choice(['pc', 'cm', 'm', 'km'])
+    elif directed == 'var_single_filter':
+        n_ap = max(n_ap, 2); nf = 1
+    # `aps` are the AU numbers the code derives (`self.apertures.to(u.au).value`); `aps_stored` what the SED holds
+    stored = gen_aps(rng, n_ap, tu)
+    aps = stored if tu == 'au' else [float(v) for v in (np.array(stored) * UNITS[tu]).to(u.au).value]
     if kinds is None:
         kinds = pick_kinds(rng, nf, allow_below=(n_ap >= 2))
     fa = gen_req(rng, aps, kinds)
@@ -209,14 +235,18 @@ def gen_var(rng, directed=None):
     if rng.random() < 0.5:
         sw = sw[::-1]
     flux = [[nice(rng, 1e-3, 1e3, 4) for _ in sw] for _ in range(n_ap)]
-    return dict(kind='var', aps=aps, no_aps=(n_ap == 1 and rng.random() < 0.5), wavs=sw, flux=flux, fw=fw, fa=fa)
+    return dict(kind='var', aps=aps, aps_stored=stored, var_unit=tu, no_aps=(n_ap == 1 and rng.random() < 0.5),
+                wavs=sw, flux=flux, fw=fw, fa=fa)
 
 
 DIRECTED = [('conv', d) for d in ['conv_inside', 'conv_knot', 'conv_above', 'conv_below', 'conv_single', 'conv_none',
                                   'conv_other_unit'] + ['conv_above_other_unit'] * 12] + \
            [('sed', d) for d in ['sed_inside', 'sed_knot', 'sed_above', 'sed_below', 'sed_single', 'sed_none',
                                  'sed_bare', 'sed_quantity']] + \
-           [('var', d) for d in ['var_at_filter', 'var_above', 'var_below', 'var_single'] + ['var_on_min'] * 8] + \
+           [('var', d) for d in ['var_at_filter', 'var_above', 'var_below', 'var_single', 'var_single_filter'] +
+            ['var_on_min'] * 8 + ['var_knot_other_unit'] * 8] + \
+           [('conv', d) for d in ['conv_knot_other_unit'] * 12 + ['conv_empty']] + \
+           [('sed', d) for d in ['sed_knot_other_unit'] * 12 + ['sed_empty']] + \
            [('hist', d) for d in ['h_error', 'h_flux', 'h_both', 'h_aps', 'h_aps_only', 'h_repeat', 'h_long'] * 2] + \
            [('shist', d) for d in ['sh_interp', 'sh_var', 'sh_mixed']]
 
@@ -299,6 +329,28 @@ def make_conv(case):
     return c
 
 
+def snap(xs, aps):
+    """a request that is the first / last knot expressed in another unit comes back from the unit round trip within
+    an ulp or two of the knot: the property expects the tabulated value there, so the model is asked at the knot"""
+    out = []
+    for x in xs:
+        for a in (aps[0], aps[-1]):
+            if x != a and abs(x - a) <= 1e-13 * abs(a):
+                x = a
+        out.append(x)
+    return out
+
+
+def refusal_verdict(model_err, impl_err, what):
+    """model refuses: any exception of the implementation counts as a refusal; a different class / message is
+    reported without claiming the property fails; a returned result is a violation"""
+    if impl_err == model_err:
+        return True, '', None
+    if impl_err is not None:
+        return False, '%s: refused as required, but with %s where the model has %s' % (what, impl_err, model_err), None
+    return False, '%s: model refuses (%s), implementation returned a result' % (what, model_err), True
+
+
 def run_conv(case, c=None):
     """one interpolate() against the table described by `case`; `c` is the object to call (a fresh one
     when None; in a history the caller passes the live object, whose current table is `case`)"""
@@ -313,6 +365,12 @@ def run_conv(case, c=None):
         req_q = req_q.to(ru)
         branches.add('conv_other_unit')
     req_t = [float(v) for v in req_q.to(tu).value]     # what interp1d receives
+    if ru is not tu:
+        if any(x in (aps[0], aps[-1]) for x in case['req']) and len(aps) >= 2:
+            branches.add('conv_knot_other_unit')
+        req_t = snap(req_t, aps)
+    if not case['req']:
+        branches.add('conv_empty_request')
     single = len(aps) == 1
     if single:
         branches.add('conv_single_repeat')
@@ -329,37 +387,39 @@ def run_conv(case, c=None):
         impl_err = None
     except Exception as e:       # noqa: BLE001 — the error class is the observable
         impl_err = err_enum(e)
+    what = 'ConvolvedFluxes.interpolate, apertures %r %s, request %r %s (= %r %s)' % (
+        aps, case['tab_unit'], [float(v) for v in req_q.value], case['req_unit'], req_t, case['tab_unit'])
     if tag == 'E':
-        if impl_err == t:
-            return True, '', branches, None
-        return False, 'requests %r (table unit) with a radius below the smallest aperture %r: model refuses (%s), ' \
-                      'implementation %s' % (req_t, aps[0], t, impl_err or 'returned a result'), branches, None
+        ok, detail, viol = refusal_verdict(t, impl_err, what)
+        return ok, detail, branches, viol
     if impl_err is not None:
-        return False, 'ConvolvedFluxes.interpolate raised %s on apertures=%r %s, request=%r %s (none below the table); ' \
-                      'expected fluxes %s' % (impl_err, aps, case['tab_unit'], [float(v) for v in req_q.value],
-                                              case['req_unit'], 'per C13 (clamped above, linear inside)'), branches, None
+        return False, '%s: raised %s although no radius is below the table; expected fluxes per C13 (tabulated on a ' \
+                      'knot, linear inside, largest-aperture value above)' % (what, impl_err), branches, True
     wav = t.rat(); nn = t.nat(); names = [t.tok() for _ in range(nn)]
     m_aps = t.rats(); m_flux = read_rows(t); m_err = read_rows(t)
     if [str(x) for x in out.model_names] != names:
-        return False, 'model names / order changed: %r vs %r' % (list(out.model_names), names), branches, None
+        return False, 'model names / order changed: %r vs %r' % (list(out.model_names), names), branches, True
     if float(out.central_wavelength.to(u.micron).value) != float(wav):
-        return False, 'central wavelength changed: %r vs %r' % (out.central_wavelength, float(wav)), branches, None
+        return False, 'central wavelength changed: %r vs %r' % (out.central_wavelength, float(wav)), branches, True
+    for impl, model, what2, tabv in ((out.flux.to(u.mJy).value, m_flux, 'flux', case['flux']),
+                                     (out.error.to(u.mJy).value, m_err, 'error', case['err'])):
+        d = cmp_matrix(impl, model, what2, [max(abs(v) for v in row) for row in tabv])
+        if d:
+            return False, '%s: %s' % (what, d), branches, True
     got_aps = out.apertures.to(tu).value
     if len(got_aps) != len(m_aps) or any(not common.close(g, m, 1e-12, scale=abs(float(m))) for g, m in zip(got_aps, m_aps)):
-        return False, 'returned apertures %r, expected %r' % (list(got_aps), [float(x) for x in m_aps]), branches, None
-    for impl, model, what, tabv in ((out.flux.to(u.mJy).value, m_flux, 'flux', case['flux']),
-                                    (out.error.to(u.mJy).value, m_err, 'error', case['err'])):
-        d = cmp_matrix(impl, model, what, [max(abs(v) for v in row) for row in tabv])
-        if d:
-            return False, 'apertures=%r request=%r: %s' % (aps, req_t, d), branches, None
+        # the returned radii are not part of the property's statement: model / implementation difference only
+        return False, '%s: returned apertures %r, model %r' % (what, list(got_aps), [float(x) for x in m_aps]), branches, None
     return True, '', branches, None
 
 
 def make_sed(case):
     aps = None if case['no_aps'] else case['aps']
     s = pk.make_sed('m', case['wavs'], case['flux'], np.zeros_like(np.array(case['flux'], dtype=float)), apertures_au=aps)
-    if aps is not None and case.get('tab_unit', 'au') == 'pc':
-        s.apertures = np.array(aps, dtype=float) * u.pc
+    if aps is not None and case.get('var_unit', 'au') != 'au':
+        s.apertures = np.array(case['aps_stored'], dtype=float) * UNITS[case['var_unit']]
+    elif aps is not None and case.get('tab_unit', 'au') != 'au':
+        s.apertures = np.array(aps, dtype=float) * UNITS[case['tab_unit']]
     return s
 
 
@@ -383,9 +443,15 @@ def run_sed(case, s=None):
         req_au = [float(v) for v in passed.to(u.au).value]
         branches.add('sed_quantity')
     single = len(case['aps']) == 1
+    if not case['req']:
+        branches.add('sed_empty_request')
     if single:
         branches.add('sed_single_repeat')
     else:
+        if case['req_unit'] != 'bare' and case['req_unit'] != case['tab_unit']:
+            if any(x in (case['aps'][0], case['aps'][-1]) for x in case['req']):
+                branches.add('sed_knot_other_unit')
+            req_au = snap(req_au, aps_au)
         classify(aps_au, req_au, 'sed', branches)
     tag, t = ask_value('sedinterp ' + sed_txt(case['wavs'], aps_au, case['flux']) + ' ' + rats(req_au))
     try:
@@ -393,18 +459,17 @@ def run_sed(case, s=None):
         impl_err = None
     except Exception as e:       # noqa: BLE001
         impl_err = err_enum(e)
+    what = 'SED.interpolate, apertures %r %s (= %r AU), request %r %s (= %r AU)' % (
+        case['aps'], case['tab_unit'], aps_au, [float(v) for v in getattr(passed, 'value', passed)], case['req_unit'], req_au)
     if tag == 'E':
-        if impl_err == t:
-            return True, '', branches, None
-        return False, 'SED.interpolate request %r AU with a radius below the smallest aperture %r: model refuses (%s), ' \
-                      'implementation %s' % (req_au, aps_au[0], t, impl_err or 'returned a result'), branches, None
+        ok, detail, viol = refusal_verdict(t, impl_err, what)
+        return ok, detail, branches, viol
     if impl_err is not None:
-        return False, 'SED.interpolate raised %s on apertures=%r AU request=%r AU (none below the table)' \
-            % (impl_err, aps_au, req_au), branches, None
+        return False, '%s: raised %s although no radius is below the table' % (what, impl_err), branches, True
     mags = [max(abs(case['flux'][a][i]) for a in range(len(case['flux']))) for i in range(len(case['wavs']))]
     d = cmp_matrix(np.asarray(getattr(out, 'value', out), dtype=float), read_rows(t), 'flux[wavelength][request]', mags)
     if d:
-        return False, 'SED apertures=%r AU request=%r AU: %s' % (aps_au, req_au, d), branches, None
+        return False, '%s: %s' % (what, d), branches, True
     return True, '', branches, None
 
 
@@ -425,39 +490,44 @@ def run_var(case, s=None):
             branches.add('var_above')
         if any(a == aps[0] for a in fa):
             branches.add('var_on_min')
+        if case.get('var_unit', 'au') != 'au' and any(a in (aps[0], aps[-1]) for a in fa):
+            branches.add('var_knot_other_unit')
+        if len(fw) == 1:
+            branches.add('var_single_filter')
     tag, t = ask_value('interpvar ' + sed_txt(case['wavs'], aps_au, case['flux']) + ' ' + rats(fw) + ' ' + rats(fa))
     try:
         out = s.interpolate_variable(np.array(fw, dtype=float), np.array(fa, dtype=float))
         impl_err = None
     except Exception as e:       # noqa: BLE001
         impl_err = err_enum(e)
+    what = 'SED.interpolate_variable, SED apertures %r AU (stored as %r %s), filter wavelengths %r, filter apertures %r AU' % (
+        aps, case.get('aps_stored', aps), case.get('var_unit', 'au'), fw, fa)
     if tag == 'E':
-        if impl_err == t:
-            return True, '', branches, None
-        return False, 'interpolate_variable with filter apertures %r, smallest tabulated %r: model refuses (%s), ' \
-                      'implementation %s' % (fa, aps[0], t, impl_err or 'returned a result'), branches, None
+        ok, detail, viol = refusal_verdict(t, impl_err, what)
+        return ok, detail, branches, viol
     if impl_err is not None:
-        return False, 'interpolate_variable raised %s on SED apertures=%r AU, filter wavelengths=%r, filter apertures=%r ' \
-                      '(none below the table); expected the interpolant at each filter\'s aperture' \
-            % (impl_err, aps, fw, fa), branches, None
+        return False, '%s: raised %s although no filter aperture is below the table; expected the interpolant at each ' \
+                      'filter\'s aperture' % (what, impl_err), branches, True
     model = t.rats()
     got = np.asarray(getattr(out, 'value', out), dtype=float)
     if got.shape != (len(model),):
-        return False, 'result shape %r, expected (%d,)' % (got.shape, len(model)), branches, None
+        return False, '%s: result shape %r, expected (%d,)' % (what, got.shape, len(model)), branches, True
     # the property's own right-hand side: at a filter's wavelength, interpClamp at that filter's aperture
+    at_filter = set()
     if not single:
         lo, hi = min(fw), max(fw)
         for i, w in enumerate(case['wavs']):
             if w in fw:
                 branches.add('var_at_filter')
+                at_filter.add(i)
                 j = fw.index(w)
                 col = [case['flux'][a][i] for a in range(len(aps))]
                 tg, tt = ask_value('interp1 %s %s %s' % (rats(aps), rats(col), rat(fa[j])))
                 rhs = tt.rat()
                 if not common.close(got[i], rhs, TOL, scale=1e-3 * max(abs(v) for v in col)):
-                    return False, 'interpolate_variable at filter wavelength %r (aperture %r AU): impl %r, linear interpolant ' \
-                                  'of the SED at that aperture %r; SED apertures %r, fluxes %r' \
-                        % (w, fa[j], float(got[i]), float(rhs), aps, col), branches, None
+                    return False, '%s: at filter wavelength %r (aperture %r AU) impl %r, linear interpolant of the SED at ' \
+                                  'that aperture %r; fluxes over apertures %r' \
+                        % (what, w, fa[j], float(got[i]), float(rhs), col), branches, True
             elif lo < w < hi:
                 branches.add('var_between')
             else:
@@ -465,8 +535,9 @@ def run_var(case, s=None):
     for i, v in enumerate(model):
         mag = max(abs(case['flux'][a][i]) for a in range(len(case['flux'])))
         if not common.close(got[i], v, TOL, scale=1e-3 * mag):
-            return False, 'interpolate_variable at SED wavelength %r: impl %r, model %r (filters %r / %r, SED apertures %r)' \
-                % (case['wavs'][i], float(got[i]), float(v), fw, fa, aps), branches, None
+            # between / outside the filter wavelengths the property says nothing: model / implementation difference only
+            return False, '%s: at SED wavelength %r impl %r, model %r' % (what, case['wavs'][i], float(got[i]), float(v)), \
+                branches, (True if (single or i in at_filter) else None)
     return True, '', branches, None
 
 
@@ -531,7 +602,7 @@ def gen_hist(rng, directed=None):
 
 def gen_shist(rng, directed=None):
     """an SED object used several times: interpolate / interpolate_variable / assign flux"""
-    base = gen_var(rng, 'var_at_filter' if directed else None)
+    base = gen_var(rng, 'var_at_filter' if directed else None, tu='au')
     ops = {'sh_interp': ['sinterp', 'sflux', 'sinterp'], 'sh_var': ['var', 'sflux', 'var'],
            'sh_mixed': ['sinterp', 'var', 'sflux', 'var', 'sinterp']}.get(directed)
     if ops is None:
@@ -568,7 +639,7 @@ def run_hist(case):
     for k, st in enumerate(case['steps']):
         op = st['op']
         if op == 'interp':
-            ok, detail, br, _ = run_conv(dict(state, req=st['req']), c)
+            ok, detail, br, viol = run_conv(dict(state, req=st['req']), c)
             branches |= br
             if len(state['aps']) >= 2:
                 if last_assign:
@@ -578,7 +649,7 @@ def run_hist(case):
             if not ok:
                 return False, 'same ConvolvedFluxes object, history %r, step %d (interpolate): %s; table held by the ' \
                               'object at that moment: apertures %r, flux %r, error %r' \
-                    % (done + ['interp'], k, detail, state['aps'], state['flux'], state['err']), branches, None
+                    % (done + ['interp'], k, detail, state['aps'], state['flux'], state['err']), branches, viol
             last_assign = None
         else:
             state = dict(state)
@@ -611,17 +682,17 @@ def run_shist(case):
             after_flux = True
         else:
             if op == 'sinterp':
-                ok, detail, br, _ = run_sed(dict(state, req=st['req'], req_unit='bare'), s)
+                ok, detail, br, viol = run_sed(dict(state, req=st['req'], req_unit='bare'), s)
                 tag = 'hist_sed_after_flux'
             else:
-                ok, detail, br, _ = run_var(dict(state, fa=st['fa']), s)
+                ok, detail, br, viol = run_var(dict(state, fa=st['fa']), s)
                 tag = 'hist_sed_var_after_flux'
             branches |= br
             if after_flux and len(state['aps']) >= 2:
                 branches.add(tag)
             if not ok:
                 return False, 'same SED object, history %r, step %d: %s; fluxes held by the object at that moment %r' \
-                    % (done + [op], k, detail, state['flux']), branches, None
+                    % (done + [op], k, detail, state['flux']), branches, viol
             after_flux = False
         done.append(op)
     return True, '', branches, None
@@ -635,13 +706,13 @@ def nontrivial(case):
 
 
 def run_case(case):
-    ok, detail, branches, finding = {'conv': run_conv, 'sed': run_sed, 'var': run_var, 'hist': run_hist,
+    ok, detail, branches, viol = {'conv': run_conv, 'sed': run_sed, 'var': run_var, 'hist': run_hist,
                                      'shist': run_shist}[case['kind']](case)
     sample = dict(kind=case['kind'], apertures=case['aps'],
                   request=case.get('req', case.get('fa', [st['op'] for st in case.get('steps', [])])),
                   units=(case.get('tab_unit'), case.get('req_unit')))
     return CaseResult(ok, detail=detail, branches=branches, key=common.canon_hash(case), nontrivial=nontrivial(case),
-                      sample=sample, finding=finding, violates=None if ok else True)
+                      sample=sample, violates=None if ok else viol)
 
 
 def search(seed, tier, disagreeing):
